@@ -6,6 +6,9 @@ import (
 	"fmt"
 	"os"
 
+	"github.com/hashicorp/consul/internal/verifmc/c08"
+	"github.com/hashicorp/consul/internal/verifmc/c08r"
+	"github.com/hashicorp/consul/internal/verifmc/c09"
 	"github.com/hashicorp/consul/internal/verifmc/c19"
 	"github.com/hashicorp/consul/internal/verifmc/ev"
 )
@@ -16,6 +19,8 @@ type checkDef struct {
 }
 
 var checks = map[string]checkDef{
+	"C08": {"exploration", func(c *ev.Ctx) { c08.Run(c); c08r.Run(c) }},
+	"C09": {"exploration", c09.Run},
 	"C19": {"exploration", c19.Run},
 }
 
